@@ -22,7 +22,7 @@ type c10Env struct {
 var c10Observers = func(mids []string) []mOp {
 	obs := []mOp{{K: 'L', F: 'i'}, {K: 'L', F: 'o'}, {K: 'L', F: 's'}, {K: 'L', F: 'a'},
 		{K: 'C', F: 'i'}, {K: 'C', F: 'o'}, {K: 'C', F: 's'},
-		{K: 'O'}, {K: 'O', Fws: []string{"LA1A"}}, {K: 'O', Fws: []string{"LA1A", "la1b@winlink.org"}}}
+		{K: 'O'}, {K: 'O', Fws: []string{"LA1A"}}, {K: 'O', Fws: []string{"LA1A", "la1b@winlink.org"}}, {K: 'O', Fws: []string{"LA1A", "la1a@winlink.org", "LA1A"}}}
 	for _, m := range mids {
 		obs = append(obs, mOp{K: 'Q', Mid: m})
 	}
@@ -198,7 +198,9 @@ func init() {
 		rng := c.Rng
 		allMids := []string{"AAAAAAAAAAA1", "B2", "c.3-x", "Mid With Space", "ZZZZZZZZZZZZ"}
 		rcShapes := [][2][]string{{{"LA1A"}, nil}, {{"LA1B"}, nil}, {{"LA1A"}, {"LA1C"}}, {{"la1a@winlink.org"}, nil}, {{"someone@example.com"}, nil}, {nil, {"LA1B"}}}
-		fwLists := [][]string{nil, {"LA1A"}, {"LA1A", "LA1B"}, {"la1b"}, {"SMTP:someone@example.com"}}
+		// incl. lists that name the same station more than once after normalisation (an auxiliary address equal
+		// to the call sign, a call sign with and without the winlink.org domain)
+		fwLists := [][]string{nil, {"LA1A"}, {"LA1A", "LA1B"}, {"la1b"}, {"SMTP:someone@example.com"}, {"LA1A", "la1a@winlink.org"}, {"LA1B", "LA1A", "LA1B"}, {"la1a", "LA1A", "la1a"}}
 		roots := []string{"/mbox", "/mbox", "/mbox/", "/a/b/mbox", "/x/../mbox", "//y/./mbox//"}
 		folders := []byte{'i', 'o', 's', 'a'}
 		randMsg := func() mMsg {
